@@ -604,7 +604,37 @@ pub fn cfg_of(h: &HistSeed) -> Cfg {
 
 /// Profile ManyGroups starts from a "farm" of k groups that are alive at once, most of
 /// them holding an unread datum (k and the details come from the seed's header).
+/// A state that kept turning up in hard-to-find defects: an edge that dangles after its
+/// target's group was collected while the source's group lives on, with the target id
+/// added again (ungrouped) — optionally followed by the very same bind once more.
+pub fn dangling_edge_template(cap: usize, sel: u16) -> Vec<Call> {
+    if cap < 4 {
+        return vec![];
+    }
+    let l = [Lab::Alpha(0), Lab::Str("foo".into()), Lab::Greek('ρ'), Lab::Alpha(17)][(sel % 4) as usize].clone();
+    let mut v = vec![
+        Call::Add(0), Call::Add(1), Call::Add(2), Call::Add(3),
+        Call::Bind { a: 0, b: 1, l: Lab::Greek('x'), parsed: false },
+        Call::Bind { a: 2, b: 3, l: Lab::Greek('x'), parsed: false },
+        Call::Bind { a: 0, b: 2, l: l.clone(), parsed: false },
+        Call::Put(1, vec![1; 9]),
+        Call::Put(3, vec![3]),
+        Call::Data(3),
+        Call::Add(2),
+    ];
+    if sel & 4 == 4 {
+        v.push(Call::Bind { a: 0, b: 2, l, parsed: false });
+    }
+    if sel & 8 == 8 {
+        v.push(Call::Put(2, vec![2; 2]));
+    }
+    v
+}
+
 pub fn prelude(profile: Profile, hs: &HistSeed, cfg: Cfg) -> Vec<Call> {
+    if matches!(profile, Profile::GcOrders | Profile::Readd | Profile::Overwrite) && hs.order_sel % 16 == 9 {
+        return dangling_edge_template(cfg.cap, hs.order_sel >> 4);
+    }
     if profile == Profile::Limit && hs.order_sel & 1 == 1 && cfg.cap >= 17 {
         // one group of 13..=16 members (each new vertex binds to an earlier one with its own first label)
         let size = 13 + (hs.order_sel as usize >> 1) % 4;
